@@ -59,7 +59,7 @@ def judge_return(ctx, st, algo, bdesc, batch, tracker, stratum, step_desc, which
     if trues and trues[0] != len(st.log) - 1:
         ctx.violate(f"C14/kept-running-after-budget-met/{algo}", f"{which}: the budget answered True at check #{trues[0] + 1} but {len(st.log)} checks were made")
     # pure evaluation budget: total in [n, n + batch)
-    if bdesc[0] == "evals" and tracker.get_number_evaluations() == st.invocations and stratum == "normal" and step_desc is None:
+    if bdesc[0] == "evals" and stratum == "normal" and step_desc is None:
         n = bdesc[1]
         if not (n <= st.invocations < n + batch):
             ctx.violate(f"C14/total-evaluations/{algo}/{'under' if st.invocations < n else 'over'}",
@@ -238,6 +238,7 @@ def run(ctx):
     ctx.stat("stratum:" + stratum)
     returned = False
     reuse = H.draw(3) == 2  # F13: the same budget object drives a second search in the same process
+    default_evaluator = bool(H.draw(2))  # the tracker is built without naming an evaluator (library default)
     with installed_clock(clock):
         top = build(bdesc, top=True)
         for attempt in range(2 if reuse else 1):
@@ -253,7 +254,7 @@ def run(ctx):
                 st.steps = 0
                 st.last_progress = 0
                 returned = False
-            tracker = SingleObjectiveProgressTracker(problem, SequentialEvaluator())
+            tracker = SingleObjectiveProgressTracker(problem) if default_evaluator else SingleObjectiveProgressTracker(problem, SequentialEvaluator())
             kw = {}
             if algo == "hc":
                 kw["number_of_mutations"] = hc_n
